@@ -74,7 +74,7 @@ func checkC05(c *Ctx) {
 	// a reported event whose handler fails "fails on its own": the event cursor moves past it whatever the
 	// handler returns, otherwise the same event is applied again in every block and nothing after it is ever
 	// processed (C03's ordering clause: nonce bumped and record marked before the handler runs)
-	c.include("contain", "C03", rulesIn("C03.accepted-first"))
+	c.include("contain", "C03", rulesIn("C03.accepted-first", "C03.tally-order"))
 
 	// ---- iter-nesting ---------------------------------------------------------------------
 	regions := p.Regions(live)
